@@ -711,6 +711,12 @@ func (e *E3) cmdStarted(r *Result, prefix string) {
 	p := e.p
 	rule := prefix + ".cmd-started"
 	for _, fn := range e.order {
+		// the invariant is needed only where a reviewed "command should always
+		// be started" panic relies on it (the fsim command module); other users
+		// of exec.Cmd (the plugin host) test cmd / cmd.Process for nil instead
+		if funcPkgPath(fn) != modulePath+"/fsim" {
+			continue
+		}
 		var starts []ssa.CallInstruction
 		for _, b := range fn.Blocks {
 			for _, in := range b.Instrs {
